@@ -313,18 +313,20 @@ pub mod cb {
 
 // ---- sequence origin & state introspection for explicit-state exploration ---------------------------------------------
 
-static SEQUENCE_ORIGIN: std::sync::atomic::AtomicU32 = std::sync::atomic::AtomicU32::new(0);
+thread_local! {
+    static SEQUENCE_ORIGIN: std::cell::Cell<u32> = const { std::cell::Cell::new(0) };
+}
 
-/// Ring buffers created from now on start their free-running sequence counters at `origin` instead of 0
+/// Ring buffers created *by the calling thread* from now on start their free-running sequence counters at `origin` instead of 0
 /// (so that histories can be run next to the 32-bit wrap without transporting 2^32 events first)
 pub fn set_sequence_origin(origin: u32) {
-    SEQUENCE_ORIGIN.store(origin, StdOrdering::SeqCst);
+    SEQUENCE_ORIGIN.with(|o| o.set(origin));
 }
 
 /// See [set_sequence_origin()]
 #[inline(always)]
 pub fn sequence_origin() -> u32 {
-    SEQUENCE_ORIGIN.load(StdOrdering::Relaxed)
+    SEQUENCE_ORIGIN.with(|o| o.get())
 }
 
 /// Canonical view of the *internal* bookkeeping of a container / channel at rest: sequence counters are reported relative to `head`
